@@ -23,7 +23,9 @@ trial count, preamble and every per-factor sustain count by the same factor; eve
 (init_within_block) also scales it in sustain_within_block; (sibling rule) every constraint attribute that is
 measured in trials (k of the _KInARow family, trials of MinimumTrials) is multiplied by the sustain count -- if one
 member of a family scales its count, all members with the same attribute do; (pair) the Sustain encoder and checker
-agree (C07 pair); (disjoint) a factor cannot be crossed in both blocks.  The length clause (C16) and the window scoping
+agree (C07 pair); (disjoint) a factor cannot be crossed in both blocks; (group-alignment) the rounds of
+the inner crossings stay inside the groups: Cross is laid over the whole sequence in rounds of the crossing size, so an inner
+length that is not a whole number of rounds must be refused.  The length clause (C16) and the window scoping
 of the inner block's constraints (C26) are evaluated here as well, under their own rule names.
 """
 NOT_DECIDED = "the group structure of the returned sequences and associativity of nesting (runtime facts)."
@@ -71,6 +73,51 @@ def rule_geometry(ctx, R="C25.geometry"):
                       "%s captures geometry and scales it in sustain_within_block" % c.name,
                       "%s captures the block geometry in init_within_block but its sustain_within_block does not scale it "
                       "(self.within_block = self.within_block.sustain(sustain_count))" % c.fq)
+
+
+def rule_group_alignment(ctx, R="C25.group-alignment"):
+    """The groups of a Nest are inner_len trials long.  The Cross encoder and the crossing checkers lay the rounds of every crossing
+    in chunks of its crossing size from the end of the preamble over the whole sequence -- Cross captures no block window.  The
+    rounds of an inner crossing therefore stay inside the groups only when inner_len is a multiple of the round length: Nest has
+    to refuse the other case (a `%` test on the inner length that raises before _create), or Cross has to be scoped per window."""
+    from ..cfg import CFG
+    nest = ctx.fn("cross_block:Nest.__init__")
+    cross = ctx.repo.cls("constraint:Cross")
+    ctx.require("apply" in cross.methods, "Cross.apply not found")
+    scoped = any(isinstance(x, ast.Attribute) and x.attr == "within_block" for m in cross.methods.values() if not isinstance(m.node, ast.Lambda)
+                 for x in ast.walk(m.node))
+    inner_names = {"inner_len"}
+    for st in statements(nest.node):
+        if isinstance(st, ast.Assign) and len(st.targets) == 1 and isinstance(st.targets[0], ast.Name) and \
+                "inner_block.trials_per_sample" in ast.unparse(st.value):
+            inner_names.add(st.targets[0].id)
+    g = CFG(nest.node)
+    creates = [st for st in statements(nest.node) if isinstance(st, ast.Expr) and isinstance(st.value, ast.Call) and call_attr(st.value) == "_create"]
+    ctx.require(len(creates) == 1, "%s: _create statement not found" % nest.fq)
+    guards = []
+    for st in statements(nest.node):
+        if not isinstance(st, ast.If) or not any(isinstance(b, ast.Raise) for b in st.body):
+            continue
+        mods = [x for x in ast.walk(st.test) if isinstance(x, ast.BinOp) and isinstance(x.op, ast.Mod)]
+        for mo in mods:
+            left = ast.unparse(mo.left)
+            if (any(n in left for n in inner_names) or "inner_block.trials_per_sample" in left) and "crossing_size" in ast.unparse(mo.right):
+                guards.append(st)
+    def top(st):
+        """index of the top-level statement of Nest.__init__ that holds st (a guard inside a loop over the inner crossings is reached
+        on every path through its loop statement)"""
+        for i, t in enumerate(nest.node.body):
+            if any(x is st for x in ast.walk(t)):
+                return i
+        return None
+    guarded = any(top(st) is not None and top(creates[0]) is not None and top(st) < top(creates[0]) and
+                  g.dominates(g.node_of(nest.node.body[top(st)]), g.node_of(creates[0])) for st in guards)
+    ctx.check(scoped or guarded, R, nest, "inner rounds are not aligned with the groups",
+              "an inner block whose length is not a whole number of rounds of its crossings is refused (or Cross is scoped per window)",
+              "Nest forms groups of inner_len = inner trials - inner preamble, while Cross lays the rounds of the inner block's crossings in chunks of "
+              "the crossing size over the whole sequence; nothing refuses an inner block whose length is not a multiple of its crossing's "
+              "round (a trailing partial repetition from MinimumTrials): the rounds then straddle the groups and a group need not contain "
+              "every inner combination", creates[0])
 
 
 def check(ctx):
@@ -196,6 +243,7 @@ def check(ctx):
               "each crossed factor gets its crossing's sustain count", "factor_to_sustain_count construction changed")
 
     rule_geometry(ctx)
+    rule_group_alignment(ctx)
     # declared within_block must be assigned by some init_within_block, unless the class is whole-sequence scoped (C26)
     # ---- sibling rule on trial-valued parameters
     R = "C25.trial-valued"
